@@ -15,10 +15,24 @@ def run_h(history):
     return pm.run_history(_CFG, history)
 
 
-def mk_cfg(ctx):
-    acts = pm.ACTIONS if ctx.thorough else pm.ACTIONS[:5]
-    return pm.Cfg(seed=ctx.seed, slots=("A", "B") if ctx.thorough else ("A",), max_objs=2, actions=acts, clock=False,
-                  queries=("name", "ppid"), numeric=False, use_iter=True, max_denies=1, oneshot=True)
+import os
+OWN_PID = os.getpid()      # the interpreter that imported psutil (workers are forked from it)
+
+
+def mk_cfg(ctx, variant="main"):
+    acts = pm.ACTIONS if ctx.thorough else pm.ACTIONS[:6]
+    if variant == "main":
+        return pm.Cfg(seed=ctx.seed, slots=("A", "B") if ctx.thorough else ("A",), max_objs=2, actions=acts, clock=False,
+                      queries=("name", "ppid"), numeric=False, use_iter=True, max_denies=1, oneshot=True)
+    if variant == "popen":
+        # the held objects are psutil.Popen instances whose child was reaped behind their back (returncode None)
+        return pm.Cfg(seed=ctx.seed, slots=("A",), max_objs=2, actions=acts[:4], clock=False, queries=("name",), numeric=False,
+                      use_iter=False, popen=True)
+    if variant == "ownpid":
+        # the recyclable pid is the pid of the interpreter that imported psutil (state captured at import, then fork)
+        return pm.Cfg(seed=ctx.seed, slots=("A",), max_objs=1, actions=acts[:4], clock=False, queries=("name",), numeric=False,
+                      use_iter=False, own_pid=OWN_PID if OWN_PID < 2 ** 22 else None)
+    raise AssertionError(variant)
 
 
 def static_cases(seed):
@@ -61,11 +75,37 @@ def static_cases(seed):
     return n, viols
 
 
+def scrub(x):
+    """messages must not depend on the interpreter's own pid (replays run in other processes)"""
+    if isinstance(x, str):
+        return x.replace(str(OWN_PID), "<ownpid>")
+    if isinstance(x, list):
+        return [scrub(y) for y in x]
+    if isinstance(x, dict):
+        return {k: scrub(v) for k, v in x.items()}
+    return x
+
+
 def run(ctx):
     global _CFG
+    extra = {}
+    extra_viols = []
+    for variant, d in (("popen", 7 if ctx.thorough else 6), ("ownpid", 7 if ctx.thorough else 6)):
+        _CFG = mk_cfg(ctx, variant)
+        ctx.close()
+        r = bfs(run_h, d, ctx)
+        for v in r["violations"]:
+            v["case"]["variant"] = variant
+            v["msg"] = scrub(v["msg"])
+        extra_viols += r["violations"]
+        extra[variant] = {"states": r["states"], "transitions": r["transitions"], "depth": r["max_depth"]}
     _CFG = mk_cfg(ctx)
+    ctx.close()
     depth = 9 if ctx.thorough else 8
     res = bfs(run_h, depth, ctx)
+    res["violations"] = res["violations"] + extra_viols
+    res["states"] += sum(e["states"] for e in extra.values())
+    res["transitions"] += sum(e["transitions"] for e in extra.values())
     n_static, v_static = static_cases(ctx.seed)
     cov = {
         "states": res["states"], "transitions": res["transitions"],
@@ -76,7 +116,7 @@ def run(ctx):
         "exhaustive": res["capped"] is None, "capped": res["capped"],
         "alphabet": {"slots": list(_CFG.slots), "max_objects": _CFG.max_objs, "actions": list(_CFG.actions),
                      "queries": list(_CFG.queries)},
-        "static_cases": n_static,
+        "static_cases": n_static, "variants": extra,
         "explanation": "every transition is an execution of the real psutil code inside simk; states are canonicalised "
                        "(incarnations relabelled by order; see procmodel.Exec.canon) and de-duplicated",
     }
@@ -87,7 +127,7 @@ def run(ctx):
 
 def replay(ctx, case):
     global _CFG
-    _CFG = mk_cfg(ctx)
+    _CFG = mk_cfg(ctx, case.get("variant", "main"))
     if "static" in case:
         n, v = static_cases(ctx.seed)
         return {"violated": bool(v), "viols": v}
@@ -96,4 +136,4 @@ def replay(ctx, case):
     for ev in case["history"]:
         ex.apply(ev)
         trace.append([ev, ex.label, [v["cause"] for v in ex.viols]])
-    return {"violated": bool(ex.viols), "trace": trace, "viols": ex.viols}
+    return scrub({"violated": bool(ex.viols), "trace": trace, "viols": ex.viols})
